@@ -210,6 +210,64 @@ func H_Operators() {
 	checkResult(res, err, p, specBinary(sp.op, a, b), "H1 "+sp.text)
 }
 
+// H_EqualityByValue: the equality family (== /= 等于 不等于 为 不为) is decided by the
+// operands' values: comparing a value with itself (the same stored element on
+// both sides, or the same variable written twice) gives what comparing it with
+// an equal copy gives - for every double (NaN included), text, boolean, 空, and
+// for lists / dictionaries holding such a value.
+func H_EqualityByValue() {
+	eqSpellings := []string{"==", "/=", "等于", "不等于", "为", "不为"}
+	sp := eqSpellings[zv.Choose(len(eqSpellings))]
+	mk := func() r.Element { return nil }
+	switch zv.Choose(4) {
+	case 0:
+		f := zv.Float64("v")
+		mk = func() r.Element { return value.NewNumber(f) }
+	case 1:
+		t := textPool[zv.Choose(len(textPool))]
+		mk = func() r.Element { return value.NewString(t) }
+	case 2:
+		b := zv.Bool("v")
+		mk = func() r.Element { return value.NewBool(b) }
+	default:
+		mk = func() r.Element { return value.NewNull() }
+	}
+	wrap := zv.Choose(3)
+	build := func(leaf r.Element) r.Element {
+		switch wrap {
+		case 1:
+			return value.NewArray([]r.Element{value.NewNumber(1), leaf})
+		case 2:
+			return value.NewHashMap([]value.KVPair{{Key: "甲", Value: value.NewNumber(1)}, {Key: "乙", Value: leaf}})
+		}
+		return leaf
+	}
+	// reference: two separately built, equal values
+	resCopy, errCopy, pCopy := run([]rune("输入A、B\n输出 A "+sp+" B"), r.ElementMap{"A": build(mk()), "B": build(mk())})
+	var res r.Element
+	var err error
+	var p interface{}
+	switch zv.Choose(3) {
+	case 0: // one element under both names
+		e := build(mk())
+		res, err, p = run([]rune("输入A、B\n输出 A "+sp+" B"), r.ElementMap{"A": e, "B": e})
+	case 1: // the same variable on both sides
+		res, err, p = run([]rune("输入A\n输出 A "+sp+" A"), r.ElementMap{"A": build(mk())})
+	default: // containers sharing one leaf element
+		leaf := mk()
+		res, err, p = run([]rune("输入A、B\n输出 A "+sp+" B"), r.ElementMap{"A": build(leaf), "B": build(leaf)})
+	}
+	zv.Assert(p == nil && pCopy == nil, "equality by value: no Go panic")
+	zv.Assert((err == nil) == (errCopy == nil), "equality by value: a value compared with itself fails exactly when compared with an equal copy")
+	if err == nil && errCopy == nil {
+		b1, ok1 := res.(*value.Bool)
+		b2, ok2 := resCopy.(*value.Bool)
+		zv.Assert(ok1 && ok2, "equality by value: boolean results")
+		zv.Assert(b1.GetValue() == b2.GetValue(), "comparing a value with itself gives what comparing it with an equal copy gives ("+sp+")")
+	}
+	zv.Reach("compared")
+}
+
 // W_Operators_Witness: vacuity guard.
 func W_Operators_Witness() {
 	a := zv.Float64("a")
